@@ -36,6 +36,35 @@ func (g *genCtx) mkFrame(ci int, id, serial uint16, body []byte) SentFrame {
 	return SentFrame{ID: id, Serial: serial, Body: body, Valid: true, Raw: f.Encode()}
 }
 
+// mkFrameAs builds a frame that presents another phone number and/or header version than its connection's.
+func (g *genCtx) mkFrameAs(id, serial uint16, body []byte, v19 bool, phone []byte) SentFrame {
+	f := ref.Frame{ID: id, Ver19: v19, VerByte: 1, Phone: phone, Serial: serial, Body: body}
+	av := 1
+	if v19 {
+		av = 2
+	}
+	return SentFrame{ID: id, Serial: serial, Body: body, Valid: true, Raw: f.Encode(), AsVer: av, AsPhone: append([]byte(nil), phone...)}
+}
+
+// otherIdentity derives a foreign identity from a connection's: another phone, the other header version, or both.
+func (g *genCtx) otherIdentity(ci int, used map[string]bool) (bool, []byte) {
+	c := g.p.Conns[ci]
+	v19, phone := c.Ver19, c.Phone
+	kind := g.r.intn(3)
+	if kind != 0 { // the other header version, same digits where they fit
+		v19 = !v19
+		if v19 {
+			phone = append(make([]byte, 4), phone...)
+		} else {
+			phone = append([]byte(nil), phone[len(phone)-6:]...)
+		}
+	}
+	if kind != 1 { // another number, nobody else's
+		phone = g.distinctPhone(v19, used)
+	}
+	return v19, phone
+}
+
 func (g *genCtx) mkSubFrame(ci int, id, serial uint16, total, no uint16, body []byte) SentFrame {
 	c := g.p.Conns[ci]
 	f := ref.Frame{ID: id, Ver19: c.Ver19, VerByte: 1, Phone: c.Phone, Serial: serial, Body: body, Sub: true, Total: total, No: no}
@@ -175,6 +204,20 @@ func c04Base(k int) (*Plan, *genCtx, []SentFrame) {
 	return p, g, frames
 }
 
+// c04Batch: 69 heartbeats of the minimal frame size (15 bytes: 2013 header, empty body, nothing to escape).
+func c04Batch() (*Plan, *genCtx, []SentFrame) {
+	p, g := newPlan("C04", 0xC04FFF, "enum")
+	ci := g.addConn("service", false, []byte{0x01, 0x38, 0x12, 0x34, 0x56, 0x78})
+	var frames []SentFrame
+	for serial := uint16(0x0100); len(frames) < 69; serial++ {
+		f := g.mkFrame(ci, 0x0002, serial, nil)
+		if len(f.Raw) == 15 {
+			frames = append(frames, f)
+		}
+	}
+	return p, g, frames
+}
+
 func enumC04(tier string) (int, func(i int) *Plan) {
 	nb1, nb2 := 2, 0
 	if tier == "thorough" {
@@ -201,9 +244,20 @@ func enumC04(tier string) (int, func(i int) *Plan) {
 			}
 		}
 	}
+	// a full read: the tail of a pending frame plus as many minimal frames as a 1023-byte read can hold
+	for _, c := range []int{12, 13, 14} {
+		items = append(items, item{-1, c, 0})
+	}
 	return len(items), func(i int) *Plan {
 		it := items[i]
-		p, g, fr := c04Base(it.base)
+		var p *Plan
+		var g *genCtx
+		var fr []SentFrame
+		if it.base < 0 {
+			p, g, fr = c04Batch()
+		} else {
+			p, g, fr = c04Base(it.base)
+		}
 		g.p.Expect.Frames[0] = fr
 		s, ends := streamOf(fr)
 		isEnd := map[int]int{}
